@@ -500,7 +500,7 @@ impl Prop for C06 {
     fn plan(tier: Tier) -> Plan {
         Plan {
             shards: tier.pick(4, 16),
-            cases_per_shard: tier.pick(2_500, 8_000),
+            cases_per_shard: tier.pick(2_500, 24_000),
             watchdog: StdDuration::from_secs(tier.pick(300, 3600)),
         }
     }
